@@ -635,6 +635,12 @@ def boundary_cfgs(kind, r, tier):
                         {"k": "chunk", "ssrc": ssrc, "items": [{"type": r.choice([1, 2, 7, 9]), "value": gen.r_text(r, vl)}]}]}
                     if r.random() < 0.5: c["chunks"].reverse()
                     out.append(c)
+        # items of type 0 (the builder accepts them; on the wire the octet is the list terminator):
+        # alone, first, in the middle, last, with and without a value
+        for its in ([(0, b"x")], [(0, b"")], [(0, b"x"), (1, b"a")], [(1, b"a"), (0, b"zz"), (2, b"n")], [(1, b"a"), (0, b"")],
+                    [(0, b""), (1, b"a")], [(8, b"v"), (0, b"abc"), (0, b"d")]):
+            out.append({"k": "sdes", "padding": r.choice([0, 4]), "_keep": True, "chunks": [
+                {"k": "chunk", "ssrc": gen.r_u32(r), "items": [{"type": t, "value": v} for t, v in its]}]})
         # every standard item type with texts whose ends a well-meaning constructor might touch,
         # added through both adders
         for txt in SPECIAL_TEXTS:
